@@ -589,6 +589,18 @@ func (obj *Package) Undefine(name string) {
 	if obj.funcs != nil {
 		delete(obj.funcs, name)
 		obj.undefineCalls(name)
+		// An exported function of a used package that was shadowed is
+		// visible again.
+		for _, p := range obj.Uses {
+			p.mu.Lock()
+			fi := p.funcs[name]
+			p.mu.Unlock()
+			if fi != nil && fi.Export && fi.Doc != nil {
+				obj.funcs[name] = fi
+				obj.forwardCalls(name, fi.Create)
+				break
+			}
+		}
 		for _, u := range obj.Users {
 			u.mu.Lock()
 			if xf := u.funcs[name]; xf != nil && xf.Pkg == obj {
@@ -982,10 +994,10 @@ func (obj *Package) DefLambda(name string, lam *Lambda, fc func(args List) Objec
 	} else {
 		obj.lambdas[name] = lam
 	}
-	if fi := obj.funcs[name]; fi != nil {
+	// A function inherited from a used package is shadowed, not replaced.
+	if fi := obj.funcs[name]; fi != nil && fi.Pkg == obj {
 		fi.Doc = lam.Doc
 		fi.Create = fc
-		fi.Pkg = obj
 		fi.Kind = kind
 	} else {
 		fi := FuncInfo{
